@@ -318,6 +318,18 @@ package factstore
 //@ spec func tview(s TeeingStore, a ast.Atom) bool = a in view(s.base) || a in view(s.Out)
 //@ spec func twf(s TeeingStore) bool = s.base != nil && s.Out != nil && s.base != s.Out && closedView(s.base) && closedView(s.Out)
 
+// Every predicate either part lists is listed: each one is filed under ITSELF (symbol and arity; the original filed by
+// symbol alone, so q/1 of the base store and q/2 of the output store were listed as one), and everything filed is output.
+//@ func (s TeeingStore) ListPredicates()
+//@   requires s.base != nil && s.Out != nil
+//@   opt nosafety
+//@   loop 1 invariant forall p ast.PredicateSym :: p in m ==> m[p] == p
+//@   loop 1 atback pred in m && m[pred] == pred
+//@   loop 2 invariant forall p ast.PredicateSym :: p in m ==> m[p] == p
+//@   loop 2 atback pred#2 in m && m[pred#2] == pred#2
+//@   loop 3 invariant forall p ast.PredicateSym :: p in seen ==> (exists k int :: 0 <= k && k < len(res) && res[k] == p)
+//@   loop 3 atexit forall p ast.PredicateSym :: p in m ==> (exists k int :: 0 <= k && k < len(res) && res[k] == p)
+
 //@ func (s TeeingStore) Contains(atom)
 //@   requires twf(s)
 //@   modifies nothing
